@@ -5,6 +5,7 @@ package main
 
 import (
 	"fmt"
+	"go/ast"
 	"go/token"
 	"go/types"
 	"strings"
@@ -1199,4 +1200,235 @@ func c05Extras(c *Ctx) {
 			}, Cut: func(Fact) bool { return false }})
 	}
 	c.Check(n >= 1, "R-PROV", "x509.signingParamsForPublicKey", "PSS parameter constructions found", w.Pos(fn.Pos()), fmt.Sprint(n))
+}
+
+
+// timeZoneRules: the GeneralizedTime reader accepts numeric zone offsets and only checks that its result re-formats
+// to the input, so the writer must format the time value it was handed: no zone-changing call (UTC, Local, In)
+// lies on the way from the parameter (or the parsed value) to a time.Format receiver, on either side.
+func timeZoneRules(c *Ctx) {
+	w := c.W
+	zone := map[string]bool{"(time.Time).UTC": true, "(time.Time).Local": true, "(time.Time).In": true}
+	n := 0
+	for _, name := range []string{"(*z/cryptobyte.Builder).AddASN1GeneralizedTime", "(*z/cryptobyte.String).ReadASN1GeneralizedTime"} {
+		root := w.Fn(name)
+		if root == nil {
+			c.Undecided("R-SIBLING", short(name), "anchor", "-", "not found")
+			continue
+		}
+		fns := append([]*ssa.Function{root}, root.AnonFuncs...)
+		// through: loads of captured variables and locals go back to every value stored into the cell
+		through := func(x ssa.Value) []ssa.Value {
+			var out []ssa.Value
+			u, ok := x.(*ssa.UnOp)
+			if !ok || u.Op != token.MUL {
+				if cl, ok := x.(*ssa.Call); ok && zone[calleeName(&cl.Call)] {
+					return nil // recorded by the caller; do not look past it
+				}
+				if cl, ok := x.(*ssa.Call); ok && len(cl.Call.Args) > 0 && strings.HasPrefix(calleeName(&cl.Call), "(time.Time).") {
+					out = append(out, cl.Call.Args[0])
+				}
+				return out
+			}
+			var cell ssa.Value = u.X
+			if fv, ok := cell.(*ssa.FreeVar); ok {
+				// the binding in the parent
+				par := fv.Parent().Parent()
+				idx := -1
+				for i, f := range fv.Parent().FreeVars {
+					if f == fv {
+						idx = i
+					}
+				}
+				cell = nil
+				if par != nil && idx >= 0 {
+					for _, b := range par.Blocks {
+						for _, in := range b.Instrs {
+							if mc, ok := in.(*ssa.MakeClosure); ok && mc.Fn == fv.Parent() && idx < len(mc.Bindings) {
+								cell = mc.Bindings[idx]
+							}
+						}
+					}
+				}
+			}
+			if al, ok := cell.(*ssa.Alloc); ok {
+				for _, r := range *al.Referrers() {
+					if st, ok := r.(*ssa.Store); ok && st.Addr == al {
+						out = append(out, st.Val)
+					}
+				}
+			}
+			return out
+		}
+		for _, fn := range fns {
+			for _, in := range callsIn(fn, "(time.Time).Format") {
+				cc := callCommon(in)
+				if cc == nil || len(cc.Args) < 1 {
+					continue
+				}
+				n++
+				c.Sites++
+				bad := ""
+				for v := range backClosure(cc.Args[0], through) {
+					if cl, ok := v.(*ssa.Call); ok && zone[calleeName(&cl.Call)] {
+						bad = calleeName(&cl.Call) + " at " + w.InstrPos(cl)
+					}
+				}
+				c.Check(bad == "", "R-SIBLING", short(FuncName(fn)), "the time that is formatted is the one handed in / parsed, with its zone offset unchanged (reader and writer agree on offsets)", w.InstrPos(in), bad)
+			}
+		}
+	}
+	c.Check(n >= 2, "R-SIBLING", "cryptobyte", "GeneralizedTime format sites found", "-", fmt.Sprint(n))
+}
+
+
+// c21Extras: R-INIT. A decoder that builds its result by read-modify-write of *out (shift in, or in) returns the
+// written value only if *out was zero on entry. Candidates are discovered structurally (a store to *param whose
+// value depends on a load of *param, with no earlier independent store); the armed instances are frozen below,
+// each confirmed by reading. For an armed instance every call chain must end in the address of a local that is
+// still zero; handing it memory of unknown content (a caller's variable) is reported.
+var c21Accumulators = map[string]string{
+	"cryptobyte.asn1Unsigned": "armed: shifts the octets into *out and never clears it",
+	"cryptobyte.asn1Signed":   "exception: the trailing shift pair moves the incoming bits out (8*len + 64-8*len = 64 bit positions) before sign-extending",
+}
+
+func accumulatesInto(fn *ssa.Function, p *ssa.Parameter) bool {
+	if fn == nil || len(fn.Blocks) == 0 {
+		return false
+	}
+	dependsOnLoad := func(v ssa.Value) bool {
+		for x := range backClosure(v, func(y ssa.Value) []ssa.Value {
+			if b, ok := y.(*ssa.BinOp); ok {
+				return []ssa.Value{b.X, b.Y}
+			}
+			return nil
+		}) {
+			if u, ok := x.(*ssa.UnOp); ok && u.Op == token.MUL && u.X == ssa.Value(p) {
+				return true
+			}
+		}
+		return false
+	}
+	var rmw, indep []ssa.Instruction
+	for _, b := range fn.Blocks {
+		for _, in := range b.Instrs {
+			st, ok := in.(*ssa.Store)
+			if !ok || st.Addr != ssa.Value(p) {
+				continue
+			}
+			if dependsOnLoad(st.Val) {
+				rmw = append(rmw, in)
+			} else {
+				indep = append(indep, in)
+			}
+		}
+	}
+	for _, r := range rmw {
+		cleared := false
+		for _, i := range indep {
+			if instrDominates(i, r) {
+				cleared = true
+			}
+		}
+		if !cleared {
+			return true
+		}
+	}
+	return false
+}
+
+func c21Extras(c *Ctx) {
+	w := c.W
+	found := map[string]bool{}
+	type site struct {
+		fn  *ssa.Function
+		idx int
+	}
+	var armed []site
+	for _, fn := range w.FuncsInFile("cryptobyte/asn1.go") {
+		for i, p := range fn.Params {
+			if _, ok := p.Type().Underlying().(*types.Pointer); !ok || !accumulatesInto(fn, p) {
+				continue
+			}
+			name := short(FuncName(fn))
+			found[name] = true
+			why, listed := c21Accumulators[name]
+			c.Sites++
+			det := why
+			if !listed {
+				det = "a function that accumulates into *" + p.Name() + " and is not in the reviewed table"
+			}
+			c.Check(listed, "R-INIT", name, "read-modify-write decoder is a reviewed instance", w.Pos(fn.Pos()), det)
+			if strings.HasPrefix(why, "armed") {
+				armed = append(armed, site{fn, i})
+			}
+		}
+	}
+	// call chains of armed instances
+	seen := map[*ssa.Function]bool{}
+	var follow func(s site, chain string)
+	follow = func(s site, chain string) {
+		if seen[s.fn] {
+			return
+		}
+		seen[s.fn] = true
+		ncall := 0
+		for _, caller := range w.FuncsInFile("cryptobyte/asn1.go") {
+			for _, b := range caller.Blocks {
+				for _, in := range b.Instrs {
+					cc := callCommon(in)
+					if cc == nil || cc.StaticCallee() != s.fn {
+						continue
+					}
+					ncall++
+					c.Sites++
+					ai := s.idx
+					if cc.IsInvoke() || ai >= len(cc.Args) {
+						continue
+					}
+					arg := cc.Args[ai]
+					lbl := fmt.Sprintf("the destination handed to %s (%s) is zero on entry", short(FuncName(s.fn)), chain)
+					switch a := arg.(type) {
+					case *ssa.Alloc:
+						bad := ""
+						for _, r := range *a.Referrers() {
+							if st, ok := r.(*ssa.Store); ok && st.Addr == ssa.Value(a) {
+								if k, ok := st.Val.(*ssa.Const); !(ok && k.Value != nil && k.Value.ExactString() == "0") && (instrDominates(st, in) || blockReaches(st.Block(), in.Block())) {
+									bad = "non-zero store at " + w.InstrPos(st)
+								}
+							}
+							if cl, ok := r.(ssa.Instruction); ok && cl != in && callCommon(cl) != nil && (instrDominates(cl, in)) {
+								bad = "address passed to " + calleeName(callCommon(cl)) + " before"
+							}
+						}
+						c.Check(bad == "", "R-INIT", short(FuncName(caller)), lbl, w.InstrPos(in), bad)
+					case *ssa.Parameter:
+						if ast.IsExported(caller.Name()) {
+							c.Check(false, "R-INIT", short(FuncName(caller)), lbl, w.InstrPos(in), "exported API forwards its caller's variable")
+						} else {
+							pi := -1
+							for k, q := range caller.Params {
+								if q == a {
+									pi = k
+								}
+							}
+							c.OK("R-INIT", short(FuncName(caller)), lbl+" (forwarded parameter, callers checked)", w.InstrPos(in), "")
+							follow(site{caller, pi}, chain+" <- "+short(FuncName(caller)))
+						}
+					default:
+						c.Check(false, "R-INIT", short(FuncName(caller)), lbl, w.InstrPos(in), "destination "+Expr(arg)+" is memory of unknown content")
+					}
+				}
+			}
+		}
+		c.Check(ncall >= 1, "R-INIT", short(FuncName(s.fn)), "call sites found", w.Pos(s.fn.Pos()), fmt.Sprint(ncall))
+	}
+	for _, s := range armed {
+		follow(s, short(FuncName(s.fn)))
+	}
+	for name, why := range c21Accumulators {
+		if !found[name] {
+			c.OK("R-INIT", name, "table entry no longer accumulates into its destination ("+why+")", "-", "")
+		}
+	}
 }
